@@ -702,7 +702,7 @@ def _observe(text):
         x = schwifty.IBAN(text)
     except Exception as e:  # noqa: BLE001
         return [("exc", type(e).__name__)]
-    return [("ret", str(x))] + [_outcome(lambda a=a: getattr(x, a)) for a in ("bank_code", "branch_code", "account_code", "national_checksum_digits")]
+    return [("ret", str(x))] + [_outcome(lambda a=a: getattr(x, a)) for a in ("bank_code", "branch_code", "account_code", "national_checksum_digits", "bank_name")]
 
 
 def c15_pair(a, b):
